@@ -26,6 +26,17 @@ CHECKS = {
         "Trusts vmon/models/grid.py (cell semantics: cut wide char -> space with its attribute; zero-width chars ride on the previous cell). Leaf attribute runs are character-aligned; overlay tops are CompositeCanvas.",
         "DESIGN.md §3 C02",
     ),
+    "C06": (
+        "exploration",
+        "runtime monitor over mutation histories: same-tree shadow render (cache dictionaries swapped out and back) sandwiching every cached render, plus a ledger fingerprinting every canvas the cache stores and re-verifying live ones after each step",
+        "Histories of public mutators, root key/mouse input, gc of held canvases and renders/rows at alternating sizes and focus values on generated trees "
+        "of 20 widget classes; at each render step the tree is rendered fresh, cached, fresh; where the two fresh renders agree the cached one must equal "
+        "them cell-for-cell and in cursor; cached row counts must equal fresh ones; every canvas stored by the cache for a widget of the tree is "
+        "fingerprinted and must never change. A divergence is attributed to the deepest widget whose cached canvas differs from its fresh render. Held-on-observed.",
+        "Trusts the harness's dictionary swap to emulate 'cache emptied first' (the real cache survives, so stale entries accumulate as in a long session). "
+        "Only property-setter / method mutators are used; histories where a mutator or a cache-less render raises are abandoned.",
+        "DESIGN.md §3 C06",
+    ),
 }
 
 NA_REASON = "check not built yet in this round (see DESIGN.md §6 build order); no claim is made"
